@@ -257,6 +257,10 @@ def s4(ctx, rep):
     cfg = cfg_of(f)
     src = ctx.nodes(f, ctx.sel_call(selfcall="_get_config"), "may", 0)
     add = {n.id for n in cfg.nodes if any(isinstance(x, ast.Call) and fn_name(x) == "add" and U(x.func.value) == "self._excl_list" for x in cfg.node_walk(n.id))}
+    if src and not add:
+        rep.bad("S4", "must_follow", "StochasticAndFilterDuplicatesSearcher.get_config: every returned configuration is recorded when duplicates are not allowed",
+                f, None, "get_config never adds to self._excl_list: a configuration is returned without being added to the exclusion list, it can be suggested again")
+        return
     if not src or not add:
         raise AnchorError("StochasticAndFilterDuplicatesSearcher.get_config: _get_config / _excl_list.add not found")
     p = cfg.path([s for s, l in cfg.succ[next(iter(src))]], cfg.exit, deleted=add, skip_labels=("exc",),
